@@ -166,7 +166,7 @@ CLAIMED = {
    technique="Lean 4 proof (mismatch ⇒ rejection; binding ⇒ half-hash collision) + differential correspondence with the real provider and claims classes",
    design="§5 C13"),
  "C16": dict(
-   text="Lean 4 theorems over Model/Jwk.lean: int_b64_roundtrip (∀ n>0, via the Base64 round trip and beNat∘minBE = id), rsa_members_minimal_length "
+   text="Histories (Model/KeyObject.lean, Props/C16Hist.lean): one key object as a state machine (cached JWK members and cryptography objects); export_is_history_independent (∀ call sequences: an export returns what it returns on the fresh object), public_export_never_leaks and private_export_of_public_only_always_errors at every point of every history; correspondence on random call histories incl. the object's final internal flags. Lean 4 theorems over Model/Jwk.lean: int_b64_roundtrip (∀ n>0, via the Base64 round trip and beNat∘minBE = id), rsa_members_minimal_length "
         "(no leading zero octet, ∀ n), ec_members_full_length / ec_coord_roundtrip / ec_coord_decodes_to_full_length (fixed width, ∀ n < 256^len), "
         "public_export_only_public_members and public_export_has_no_private_member (∀ member lists, over the PUBLIC/PRIVATE_KEY_FIELDS lists regenerated from "
         "the key classes), private_export_of_public_is_error, thumbprint_members_eq_rfc7638 (regenerated REQUIRED_JSON_FIELDS sort to the RFC 7638 member order). "
